@@ -28,14 +28,14 @@ func lhsObject(info *types.Info, e ast.Expr) (obj types.Object, elem bool) {
 			elem = true
 		case *ast.SelectorExpr:
 			if s := info.Selections[x]; s != nil {
-				return s.Obj(), elem
+				return originOf(s.Obj()), elem
 			}
-			return info.Uses[x.Sel], elem
+			return originOf(info.Uses[x.Sel]), elem
 		case *ast.Ident:
 			if o := info.Defs[x]; o != nil {
-				return o, elem
+				return originOf(o), elem
 			}
-			return info.Uses[x], elem
+			return originOf(info.Uses[x]), elem
 		default:
 			return nil, elem
 		}
